@@ -120,6 +120,10 @@ def handleCore (args : List String) : Option String :=
     -- `AliasTable.published_immutable_generated` / `clone_view_generated`: the published value never
     -- changes and a clone sees its own stores only — the only admissible answer
     some "consistent\tconsistent\t-"
+  | ["p.order"] =>
+    -- the resolver cache is keyed by the ORDERED list of index objects (`AliasKey.resolver_key_is_the_argument`,
+    -- `keyed_get_transparent`): every order gets the answer of its own fresh state
+    some "consistent\tconsistent\t-"
   | ["p.pure"] =>
     -- C08: the model is a pure function of (universe, world); `C08.schedule_independent` and
     -- `history_independent` say the caches cannot change that — the only admissible answer
